@@ -645,7 +645,7 @@ def gen_C06(tier, seed):
                                                             'mi': u.minute, 's': u.second, 'us': u.microsecond}})
     # object names / references
     for origin in [0, 1, 127, 128, 16383, 16384, 2 ** 30 - 1, 2 ** 30]:
-        for copy in [0, 1, 255, 256]:
+        for copy in [0, 1, 127, 128, 200, 255, 256]:
             for nlen in [0, 1, 127, 128, 255, 256]:
                 if tier == 'quick' and rng.random() < 0.5:
                     continue
